@@ -21,7 +21,7 @@ META = dict(
               "unsupported schema_name for QCSchema) x allow_changes; target absent / pre-existing; dump_many with the faulty "
               "frame at index 0, 1, 2 and list / generator iterables, empty sequence; a fault injected at the k-th write "
               "for every k up to 12 (and the last); unknown and unsupported formats; an un-openable target",
-        thorough="write faults at every k of the whole output"),
+        thorough="as quick with a fault at the k-th write for every k up to 60 (and the last) and FCHK occupation vectors of three orbitals"),
     outside=["operating-system level faults other than a failing write()/open()", "threads"],
     assumptions=["open() in iodata.api/iodata.utils replaced by an in-memory file system that records open / truncate / "
                  "write / close events", "the input space is discrete here: the solver contributes the FCHK aufbau "
